@@ -8,6 +8,9 @@
 From Coq Require Import List NArith ZArith.
 From MM Require Import Model.SleepCmd Model.SleepCmdFlood Proofs.SleepCmdProofs Proofs.SleepCmdOnceProofs Generated.C29.
 Import ListNotations.
+From Coq Require String.
+Delimit Scope string_scope with string.
+Import String.StringSyntax.
 Local Open Scope Z_scope.
 
 (** Every history with nondecreasing instants (the clock does not step back)
@@ -113,6 +116,8 @@ Theorem C29_source_facts :
   gen_c29_expiry_test_strict = true /\
   gen_c29_size_eviction_when_over_max = true /\
   gen_c29_cleanup_every_half_ttl = true /\
+  (* nothing but the constructor, the cleanup and the marking writes to the seen cache of sleep/wake commands *)
+  gen_c29_sleep_cache_writers = ["NewFlooder"; "cleanupSleepCmdCache"; "markSleepCmdSeen"]%string /\
   gen_c29_flood_sleep_marks_own_command_before_sending = true /\
   gen_c29_flood_wake_marks_own_command_before_sending = true /\
   gen_c29_default_ttl_ns = f_ttl (default_cfg true) /\
